@@ -31,8 +31,12 @@ def demo(wt, mdir, tag):
             meta = json.load(open(os.path.join(mdir, "meta.json")))
         except Exception:      # noqa: BLE001
             meta = {}
-        cmdtext = " ".join(str(v) for k, v in meta.items() if "build" in k or "compile" in k) + open(os.path.join(mdir, "demo.cpp")).read()[:3000]
-        listed = sorted(set(re.findall(r"src/\w+\.cpp", cmdtext)))
+        cmdtext = " ".join(str(v) for k, v in meta.items() if ("build" in k or "compile" in k) and "g++" in str(v))
+        listed = sorted(set(re.findall(r"src/[\w/]+\.cpp", cmdtext)))
+        if not listed:
+            # the compile line in the demo's header comment (the line that mentions demo.cpp)
+            head = [l for l in open(os.path.join(mdir, "demo.cpp")).read()[:4000].split("\n") if "g++" in l or ("src/" in l and ".cpp" in l and "demo" not in l)]
+            listed = sorted(set(re.findall(r"src/[\w/]+\.cpp", " ".join(head))))
         if listed:
             rc, out = sh(["g++", "-std=c++17", "-O1", "-w", "-I", "src", "-I", "include", "-I", "include/teakra/impl",
                           os.path.join(mdir, "demo.cpp")] + listed + ["-pthread", "-o", exe], cwd=wt)
